@@ -62,6 +62,8 @@ type Unit struct {
 	loopsSeen map[int]bool
 	funcLits  []*ast.FuncLit
 	rangeVars map[int]*types.Var
+	visitedVars map[int]*types.Var
+	mentionsHeld bool
 }
 
 type deferred struct {
@@ -1581,6 +1583,9 @@ func (u *Unit) coerce(st *State, v Term, t types.Type) Term {
 	}
 	if isNilTerm(v) {
 		return u.zeroOf(t)
+	}
+	if _, isTP := t.(*types.TypeParam); isTP {
+		return v // generic parameter: the value keeps its own representation
 	}
 	if types.IsInterface(t) && !types.IsInterface(v.T) {
 		return u.toInterface(st, v, t)
